@@ -115,7 +115,7 @@ class _FragGen:
         if k == "int":
             ops += ["fdiv", "rem", "fdiv", "rem", "min", "max", "cmp"]
         elif k == "mixed":
-            ops += ["fdiv", "rem", "min", "max", "cmp", "quotp2", "quotp2"]
+            ops += ["fdiv", "rem", "min", "max", "cmp", "quotp2", "quotp2", "quoti"]
         else:
             ops += ["quot", "quot", "gpow", "call", "call"]
         o = r.choice(ops)
@@ -145,6 +145,17 @@ class _FragGen:
                                                    ["f", "-1.0"], e(d + 1)])]]
         if o == "if":
             return ["n", "If", [self.cond(d + 1), e(d + 1), e(d + 1)]]
+        if o == "quoti":
+            # an integer divisor under a numerator that is floating only by promotion
+            how = r.random()
+            if how < 0.5:
+                num = ["n", "Sum", [["t", [e(d + 1), ["n", "Product", [["t", [["f", "-1.0"],
+                                                                                 e(d + 1)]]]]]]]]
+            elif how < 0.8:
+                num = ["n", "Product", [["t", [["f", r.choice(["1.0", "0.5", "2.0"])], e(d + 1)]]]]
+            else:
+                num = ["n", "Sum", [["t", [e(d + 1), ["f", r.choice(["0.5", "1.0"])]]]]]
+            return ["n", "Quotient", [num, ["i", r.choice([2, 4, 8])]]]
         if o == "quotp2":
             return ["n", "Quotient", [e(d + 1), ["f", repr(r.choice([2.0, 4.0, 0.5, 0.25]))]]]
         if o in ("fdiv", "rem") and k == "mixed":
@@ -328,10 +339,11 @@ def _wrapper_children(o, acc, p, c_shortcuts=True):
             _wrapper_children(x, acc, p, c_shortcuts)
 
 
-def ctype_obj(e, p):
-    """Static C type ("int" / "float") of an expression in a program whose variables are all
-    long long, or None if C and the evaluator would not mean the same thing (int / int is an
-    integer division in C, // and % are for integers only)."""
+def ctype_obj(e, p, var="int"):
+    """Static C type ("int" / "float") of an expression in a program whose variables all have
+    C type `var`, or None if C and the evaluator would not mean the same thing (int / int is
+    an integer division in C, // and % are for integers only; note that the C mapper prints
+    x**0 as the int literal 1 whatever x is)."""
     if isinstance(e, bool) or isinstance(e, int):
         return "int"
     if isinstance(e, float):
@@ -339,35 +351,42 @@ def ctype_obj(e, p):
     if not isinstance(e, p.Expression):
         return None
     if isinstance(e, p.Variable):
-        return "int"
+        return var
     if isinstance(e, p.CommonSubexpression) or type(e).__name__ == "Unsupp":
-        return ctype_obj(e.child, p)
+        return ctype_obj(e.child, p, var)
+    if isinstance(e, p.Call):
+        return None if None in [ctype_obj(c, p, var) for c in e.parameters] else "float"
     if isinstance(e, (p.Sum, p.Product, p.Min, p.Max)):
-        ts = [ctype_obj(c, p) for c in e.children]
+        ts = [ctype_obj(c, p, var) for c in e.children]
         if None in ts or not ts:
             return None
         return "float" if "float" in ts else "int"
     if isinstance(e, p.Quotient):
-        a, b = ctype_obj(e.numerator, p), ctype_obj(e.denominator, p)
+        a, b = ctype_obj(e.numerator, p, var), ctype_obj(e.denominator, p, var)
         if a is None or b is None or (a == "int" and b == "int"):
             return None
         return "float"
     if isinstance(e, (p.FloorDiv, p.Remainder)):
-        a, b = ctype_obj(e.numerator, p), ctype_obj(e.denominator, p)
+        a, b = ctype_obj(e.numerator, p, var), ctype_obj(e.denominator, p, var)
         return "int" if a == "int" and b == "int" else None
     if isinstance(e, p.Power):
-        b = ctype_obj(e.base, p)
-        if b is None or not isinstance(e.exponent, int) or e.exponent not in (0, 1, 2):
+        b = ctype_obj(e.base, p, var)
+        if b is None:
             return None
-        return "int" if e.exponent == 0 else b
+        if isinstance(e.exponent, int) and not isinstance(e.exponent, bool) \
+                and e.exponent in (0, 1, 2):
+            return "int" if e.exponent == 0 else b
+        if var == "float":
+            return None if ctype_obj(e.exponent, p, var) is None else "float"     # pow()
+        return None
     if isinstance(e, p.Comparison):
-        return None if None in (ctype_obj(e.left, p), ctype_obj(e.right, p)) else "int"
+        return None if None in (ctype_obj(e.left, p, var), ctype_obj(e.right, p, var)) else "int"
     if isinstance(e, (p.LogicalAnd, p.LogicalOr)):
-        return None if None in [ctype_obj(c, p) for c in e.children] else "int"
+        return None if None in [ctype_obj(c, p, var) for c in e.children] else "int"
     if isinstance(e, p.LogicalNot):
-        return None if ctype_obj(e.child, p) is None else "int"
+        return None if ctype_obj(e.child, p, var) is None else "int"
     if isinstance(e, p.If):
-        c, a, b = (ctype_obj(x, p) for x in (e.condition, e.then, e.else_))
+        c, a, b = (ctype_obj(x, p, var) for x in (e.condition, e.then, e.else_))
         if None in (c, a, b):
             return None
         return "float" if "float" in (a, b) else "int"
@@ -398,6 +417,44 @@ def _make_ref_evaluator():
             return v
 
         rec = __call__
+
+        def _tie(self, a, b):
+            # a float comparison whose sides agree to rounding error may come out either way
+            # once the sorting stringifier has re-associated a sum
+            if (isinstance(a, float) or isinstance(b, float)) and not isinstance(a, complex) \
+                    and not isinstance(b, complex):
+                if abs(a - b) <= 1e-9 * max(1.0, abs(a), abs(b)):
+                    self.bad.append("near-tie")
+
+        def map_comparison(self, expr):
+            self._tie(self.rec(expr.left), self.rec(expr.right))
+            return EvaluationMapper.map_comparison(self, expr)
+
+        def _truth(self, v):
+            if isinstance(v, float) and abs(v) <= 1e-9:
+                self.bad.append("near-tie")
+            return v
+
+        def map_if(self, expr):
+            self._truth(self.rec(expr.condition))
+            return EvaluationMapper.map_if(self, expr)
+
+        def map_logical_not(self, expr):
+            self._truth(self.rec(expr.child))
+            return EvaluationMapper.map_logical_not(self, expr)
+
+        def map_logical_and(self, expr):
+            for ch in expr.children:
+                self._truth(self.rec(ch))
+            return EvaluationMapper.map_logical_and(self, expr)
+
+        def map_logical_or(self, expr):
+            for ch in expr.children:
+                self._truth(self.rec(ch))
+            return EvaluationMapper.map_logical_or(self, expr)
+
+        def map_min(self, expr):
+            return EvaluationMapper.map_min(self, expr)
 
         def map_floor_div(self, expr):
             n, d = self.rec(expr.numerator), self.rec(expr.denominator)
@@ -586,8 +643,9 @@ def execute(scenario, open_sigs):
             if violation is not None:
                 break
             e = B.build(t)
-            if kind == "mixed" and ctype_obj(e, p) is None:
-                probe("mixed_not_c_expressible_skipped")
+            if kind in ("mixed", "float") and ctype_obj(
+                    e, p, "float" if kind == "float" else "int") is None:
+                probe("not_c_expressible_skipped")
                 events.append([opi, "skip"])
                 continue
             if kind == "mixed":
